@@ -440,3 +440,26 @@ Theorem C20_validate_roundtrip :
     parse avail (go_valid_registry ip6_ok) (format avail r) = Some r.
 Proof. exact validate_roundtrip. Qed.
 Print Assumptions C20_validate_roundtrip.
+
+(* ---------- every history of calls on one Repository ---------- *)
+
+(* whatever sequence of reference-taking and descriptor-driven operations is called on a Repository
+   with a valid base (reference strings arbitrary; descriptors with valid digests), every request
+   ever sent goes to the base registry's host (no user-info), under /v2/<base repository>/, with
+   exactly the segments listed, and has no fragment *)
+Theorem C20_session_in_base :
+  forall (avail vr : str -> bool) plain breg brepo cs,
+    (forall reg, vr reg = true -> reg_clean reg = true) ->
+    vr breg = true -> valid_repository brepo = true ->
+    Forall (call_ok avail) cs ->
+    Forall (fun mu => in_base_slot plain breg brepo (snd mu)) (session_requests avail vr plain breg brepo cs).
+Proof. exact (fun avail vr plain breg brepo cs H Hb Hp => session_in_base avail vr H plain breg brepo Hb Hp cs). Qed.
+Print Assumptions C20_session_in_base.
+
+Example C20_session_example :
+  session_requests (fun _ => true) go_registry false (b "localhost:5000") (b "a/b")
+    [CRef OpMResolve (b "ghcr.io/Org/app@sha256:e3b0c44298fc1c149afbf4c8996fb92427ae41e4649b934ca495991b7852b855") [];
+     CRef OpMResolve (b "v1") []; CDesc DTags [] (b "v 1") []]
+  = [(b "HEAD", b "https://localhost:5000/v2/a/b/manifests/v1");
+     (b "GET", b "https://localhost:5000/v2/a/b/tags/list?last=v+1")].
+Proof. vm_compute. reflexivity. Qed.
